@@ -106,6 +106,15 @@ def run_case(rep, scn, case, sb, tag, n_orders, n_seeds, lrows=None):
     plan = R.gen_fault_plan(rng, scn, files, density=rng.choice([0, 1, 2, 3]))
     found = False
     path_fault = None
+    if case.get("mixed"):
+        # one repository persistently fails, the others succeed: the exit status (and every repository's own
+        # result) must not depend on which of them happens to finish last
+        from .c02 import selected_groups
+        victim = scn.repos[case["mixed"] % len(scn.repos)]
+        groups = selected_groups(victim, files[victim["url"]])
+        if groups:
+            g = sorted(groups)[case["seed"] % len(groups)]
+            plan = {victim["url"]: {p: {"first": [], "rest": "error"} for p in groups[g]}}
     if case.get("crowd"):
         # the upstream sends no Last-Modified for the shared alias (so every sibling transfers it again) and one
         # of its transfers breaks off half way and is retried
@@ -218,6 +227,12 @@ def run(rep: C.Report):
         for i in range(16 if rep.tier == "quick" else 300):
             scn, case = gen_case(trng, force_twin=True)
             found |= run_case(rep, scn, case, sb, f"t{i}", 8, 0, lrows)
+        # several repositories of which exactly one fails, under many completion orders
+        for i in range(5 if rep.tier == "quick" else 120):
+            scn = P.gen_scenario(trng, nrepos=trng.choice([2, 3, 3]))
+            scn.nthreads = trng.choice([2, 4, 8])
+            case = {"seed": trng.getrandbits(32), "twin": False, "shared": False, "mixed": 1 + trng.randrange(3)}
+            found |= run_case(rep, scn, case, sb, f"m{i}", 6, 0, lrows)
         # ... and more of them than the window of 128 tasks
         for i in range(3 if rep.tier == "quick" else 40):
             scn, case = gen_case(trng, force_twin="crowd")
